@@ -10,14 +10,15 @@ S :: struct { a: i32, arr: [2]i32, inner: T, pm: ^mut T, pi: ^T, o: ?T, pma: ^mu
 G :: struct { a: i32, arr: [2]i32, inner: T };
 fi :: (p: ^mut S) -> ^S { p }
 fm :: (p: ^mut S) -> ^mut S { p }
-gg :: comptime { G.{ a = 1, arr = i32.[1, 2], inner = T.{ v = 3 } } };
+gg :: comptime { G.{ a = 21, arr = i32.[22, 23], inner = T.{ v = 24 } } };
 """
 
-BODY_PRE = """    t1 := T.{ v = 1 };
-    t2 := T.{ v = 2 };
-    a1 := i32.[1, 2];
-    a2 := i32.[3, 4];
-    s := S.{ a = 1, arr = i32.[1, 2], inner = T.{ v = 3 }, pm = ^mut t1, pi = ^t2, o = T.{ v = 4 }, pma = ^mut a1, pia = ^a2 };
+# the initial cell values are those of spec/MutHeap.tla (InitVal)
+BODY_PRE = """    t1 := T.{ v = 11 };
+    t2 := T.{ v = 12 };
+    a1 := i32.[13, 14];
+    a2 := i32.[15, 16];
+    s := S.{ a = 1, arr = i32.[2, 3], inner = T.{ v = 4 }, pm = ^mut t1, pi = ^t2, o = T.{ v = 5 }, pma = ^mut a1, pia = ^a2 };
     lm := s;
     li :: s;
     vm := ^mut s;
@@ -60,6 +61,8 @@ def cases_of(c):
         out.append(("compound", "%s += 1;" % p))
     # `^mut x^` parses as `(^mut x)^` (prefix before postfix deref): always parenthesise the place
     out.append(("refmut", "r := ^mut (%s);" % p))
+    if c["steps"] and all(st["k"] in ("field", "index") for st in c["steps"]) and c["root"] not in ("fi", "fm"):
+        out.append(("refmut", "r := ^mut %s;" % p))
     return out
 
 
@@ -91,6 +94,7 @@ def run(chk):
         layout.append(where)
     results = common.run_batch(jobs, chk.wd, "mut")
     nacc = nrej = 0
+    accepted = set()
     mixed = {True: 0, False: 0}
     for job, where, r in zip(jobs, layout, results):
         if r.get("panic") or r.get("crash"):
@@ -120,6 +124,7 @@ def run(chk):
                 nrej += 1
             else:
                 nacc += 1
+                accepted.add(idx)
             if c.get("mixed"):
                 mixed[rejected] += 1
             if rejected == c["mutable"]:
@@ -133,11 +138,12 @@ def run(chk):
                                "how": "front end (hir_ty) on a function (ps: S, qm: ^mut S, qi: ^S, qii: ^^S, qmi: ^mut ^S, "
                                       "qmm: ^mut ^mut S) "
                                       "containing the statement"})
+    nruns = alias_runs(chk, tests, accepted)
     for k in (10, 400, 1500):
         if k < len(tests):
             chk.sample({"statement": tests[k][2], "mutable": tests[k][0]["mutable"]})
-    chk.cov["traces_validated_against_impl"] = len(tests)
-    chk.cov["evaluations"] = len(tests)
+    chk.cov["traces_validated_against_impl"] += len(tests)
+    chk.cov["evaluations"] = len(tests) + nruns
     chk.cov["distinct_nontrivial"] = len({t[2] for t in tests})
     chk.cov["accepted"] = nacc
     chk.cov["rejected"] = nrej
@@ -148,6 +154,105 @@ def run(chk):
     chk.cov["rule"] = ("every chain of Mutability.tla (9 roots, <= MaxSteps steps of field / index / "
                        "deref / auto-deref field / auto-deref index / paren / #unwrap) x "
                        "{=, +=, ^mut}; one checked statement each")
+
+
+PARAMS = "ps: S, qm: ^mut S, qi: ^S, qii: ^^S, qmi: ^mut ^S, qmm: ^mut ^mut S"
+CALLER = """    mt1 := T.{ v = 111 };
+    mt2 := T.{ v = 112 };
+    ma1 := i32.[113, 114];
+    ma2 := i32.[115, 116];
+    w := S.{ a = 101, arr = i32.[102, 103], inner = T.{ v = 104 }, pm = ^mut mt1, pi = ^mt2, o = T.{ v = 105 }, pma = ^mut ma1, pia = ^ma2 };
+    wi := ^w;
+    wm := ^mut w;
+"""
+
+
+def pick_readers(chains):
+    """for every i32 cell of the heap: its shortest reading chain and the shortest one from a
+    different root (an alias)"""
+    by_loc = {}
+    for c in chains:
+        if c["ty"] != "i32":
+            continue
+        by_loc.setdefault(tuple(c["loc"]), []).append(c)
+    readers = []
+    for loc in sorted(by_loc):
+        cs = sorted(by_loc[loc], key=lambda c: (len(c["steps"]), c["root"], place(c)))
+        readers.append(cs[0])
+        for c in cs[1:]:
+            if c["root"] != cs[0]["root"]:
+                readers.append(c)
+                break
+    return readers
+
+
+def alias_runs(chk, tests, accepted):
+    """execute every accepted store and read every cell back through the readers; the records are
+    validated by TraceAlias.tla"""
+    import props.c08 as c08
+    chains = {json.dumps(t[0], sort_keys=True): t[0] for t in tests}.values()
+    readers = pick_readers(chains)
+    cases = []
+    for idx, (c, op, stmt) in enumerate(tests):
+        if idx not in accepted or not c["mutable"] or c["ty"] != "i32":
+            continue
+        if op == "refmut":
+            cases.append((c, "refmut", stmt + " r^ = 7;"))
+        else:
+            cases.append((c, op, stmt))
+
+    def program(cs):
+        out = [c08.prelude(), PRELUDE.replace("putchar :: (c: i32) -> i32 extern;\n", ""),
+               "pr :: (v: i32) { x := v; emit(^x, 4); putchar(32); }"]
+        for n, (c, op, stmt) in enumerate(cs):
+            out.append("f%d :: (%s) {" % (n, PARAMS))
+            out.append(BODY_PRE.rstrip("\n"))
+            out.append("    " + stmt)
+            out.append("    " + " ".join("pr(%s);" % place(r) for r in readers))
+            out.append("    nl();")
+            out.append("}")
+            out.append("c%d :: () {" % n)
+            out.append(CALLER.rstrip("\n"))
+            out.append("    f%d(w, ^mut w, ^w, ^wi, ^mut wi, ^mut wm);" % n)
+            out.append("}")
+        out.append("main :: () {")
+        out += ["    c%d();" % n for n in range(len(cs))]
+        out.append("}")
+        return "\n".join(out) + "\n"
+
+    res = common.run_case_programs(chk, cases, program, "alias", per=40, timeout_ms=120000)
+    recs, meta = [], []
+    for (c, op, stmt), (line, why) in zip(cases, res):
+        if line is None:
+            chk.violation({"kind": "alias-run", "stmt": stmt, "why": why.split(":")[0]},
+                          {"statement": stmt, "what": "the checker accepted the store (front-end "
+                           "phase) but the program around it did not compile / run", "why": why})
+            continue
+        toks = line.split()
+        if len(toks) != len(readers):
+            chk.violation({"kind": "alias-run", "stmt": stmt, "why": "output"},
+                          {"statement": stmt, "line": line[:300]})
+            continue
+        vals = [int.from_bytes(bytes.fromhex(t), "little", signed=True) for t in toks]
+        recs.append({"w": c["loc"], "op": op,
+                     "reads": [{"loc": r["loc"], "val": v} for r, v in zip(readers, vals)]})
+        meta.append(stmt)
+    bad = common.tlc_validate_sharded(chk, "TraceAlias", "TraceAlias.cfg", recs, "alias")
+    for gi, b in bad:
+        wrong = b["wrong"]
+        wrong = list(wrong.values()) if isinstance(wrong, dict) else wrong
+        chk.violation({"kind": "alias", "stmt": meta[gi]},
+                      {"statement": meta[gi], "written_location": recs[gi]["w"], "op": recs[gi]["op"],
+                       "wrong_reads": wrong,
+                       "readers": {"/".join(r["loc"]): place(r) for r in readers},
+                       "context": BODY_PRE, "caller": CALLER,
+                       "how": "the store is executed in f(%s) called as f(w, ^mut w, ^w, ^wi, ^mut wi, "
+                              "^mut wm); afterwards every i32 cell is printed through its readers; "
+                              "TraceAlias.tla prescribes After(op, written, cell)" % PARAMS})
+    chk.cov["alias_runs"] = {"stores_executed": len(recs), "readers_per_store": len(readers),
+                             "cells": len({tuple(r["loc"]) for r in readers}),
+                             "written_cells": len({tuple(r["w"]) for r in recs})}
+    return len(recs)
 
 
 def replay(path):
